@@ -194,3 +194,40 @@ pub fn other_key(k: &[u8; 32]) -> [u8; 32] {
     o[7] ^= 0x40;
     o
 }
+
+/// Host lists that do not name the server but come close to it: same IP with another port, same port on a
+/// neighbouring IP (one bit away), the IPv4-mapped IPv6 form of a public IPv4 address with another port, or
+/// an unrelated host. None of the returned addresses equals a public address of the server.
+pub fn near_hosts(r: &mut Rng, public: &[SocketAddr]) -> Vec<SocketAddr> {
+    use std::net::IpAddr;
+    let p = *r.pick(public);
+    let mut v: Vec<SocketAddr> = Vec::new();
+    let n = 1 + r.usize_below(3);
+    while v.len() < n {
+        let cand = match r.below(5) {
+            0 => SocketAddr::new(p.ip(), p.port().wrapping_add(1 + r.below(3) as u16)),
+            1 => SocketAddr::new(p.ip(), p.port() ^ (1 << r.below(16))),
+            2 => match p.ip() {
+                IpAddr::V4(a) => {
+                    let mut o = a.octets();
+                    o[r.usize_below(4)] ^= 1 << r.below(8);
+                    SocketAddr::new(IpAddr::V4(o.into()), p.port())
+                }
+                IpAddr::V6(a) => {
+                    let mut o = a.octets();
+                    o[r.usize_below(16)] ^= 1 << r.below(8);
+                    SocketAddr::new(IpAddr::V6(o.into()), p.port())
+                }
+            },
+            3 => match p.ip() {
+                IpAddr::V4(a) => SocketAddr::new(IpAddr::V6(a.to_ipv6_mapped()), p.port().wrapping_add(1)),
+                IpAddr::V6(_) => SocketAddr::new(p.ip(), p.port().wrapping_sub(1)),
+            },
+            _ => nsim::addr4(250, r.below(200) as u8, 1 + r.below(60_000) as u16),
+        };
+        if !public.contains(&cand) && cand.port() != 0 {
+            v.push(cand);
+        }
+    }
+    v
+}
